@@ -145,6 +145,10 @@ class HeteroskedasticNoise(Noise):
 class FixedGaussianNoise(Module):
     def __init__(self, noise: Tensor) -> None:
         super().__init__()
+        self.noise = self._lower_bounded(noise)
+
+    @staticmethod
+    def _lower_bounded(noise: Tensor) -> Tensor:
         min_noise = settings.min_fixed_noise.value(noise.dtype)
         if noise.lt(min_noise).any():
             warnings.warn(
@@ -154,7 +158,7 @@ class FixedGaussianNoise(Module):
                 NumericalWarning,
             )
             noise = noise.clamp_min(min_noise)
-        self.noise = noise
+        return noise
 
     def forward(
         self, *params: Any, shape: Optional[torch.Size] = None, noise: Optional[Tensor] = None, **kwargs: Any
